@@ -105,7 +105,7 @@ pub fn check(r: &ExecResult, prog: &Program) -> Vec<Finding> {
 pub fn scenarios(tier: Tier) -> Vec<Scenario> {
     let mut v = vec![];
     // mwpat: 0 no middleware; 1 one passive; 2 two, first vetoes in before_reduce (Done);
-    // 3 two, first breaks in before_effect, second errs in before_dispatch
+    // 3 two, first breaks in before_effect, second errs in before_dispatch; 4 one, removes an effect
     let mut add = |pol: Pol, cap: usize, mwpat: u8, effs: bool, np: u32, k: u32, sampler: bool, bound: u32| {
         let mut spec = StoreSpec::new(1, cap, pol);
         match mwpat {
@@ -117,6 +117,11 @@ pub fn scenarios(tier: Tier) -> Vec<Scenario> {
             3 => {
                 spec.mws = 2;
                 spec.verdicts = vec![(HOOK_EFFECT, 0, Verdict::Break), (HOOK_DISPATCH, 1, Verdict::Err)];
+            }
+            4 => {
+                // a middleware that consumes the first effect in before_effect
+                spec.mws = 1;
+                spec.mw_removes_effect = Some(0);
             }
             _ => {}
         }
@@ -155,13 +160,14 @@ pub fn scenarios(tier: Tier) -> Vec<Scenario> {
                 add(pol, 2, 2, false, 1, 3, false, 2);
                 add(pol, 1, 3, true, 1, 2, false, 2);
             }
+            add(Pol::Block, 1, 4, true, 1, 2, false, 2);
             add(Pol::Block, 1, 1, true, 1, 1, true, 1);
             add(Pol::Oldest, 1, 0, false, 1, 2, true, 1);
         }
         Tier::Thorough => {
             for pol in Pol::ALL {
                 for cap in 1..=2usize {
-                    for mwpat in 0..=3u8 {
+                    for mwpat in 0..=4u8 {
                         for effs in [false, true] {
                             add(pol, cap, mwpat, effs, 1, 3, false, 3);
                             add(pol, cap, mwpat, effs, 2, 2, false, 2);
